@@ -544,4 +544,61 @@ class ParallelOnRepresentations(Facet):
             _reset_pathos()
 
 
-FACETS = [Sequential(), Parallel(), GPRuns(), ShortLivedProblems(), ParallelOnRepresentations()]
+class TrackerCounters(Facet):
+    """Several progress trackers built the documented way - with and without an explicit evaluator - in
+    one process, each scoring its own individuals under its own problem: a tracker's evaluation
+    counter must equal the number of fitness-function invocations made through THAT tracker (a new
+    tracker reports 0; one tracker's work does not move another's counter)."""
+
+    name = "tracker_evaluation_counters"
+
+    def budget(self, tier):
+        return (100, 2) if tier == "quick" else (600, 8)
+
+    def strategy(self, tier):
+        tr = st.tuples(st.sampled_from(["single", "multi"]), st.sampled_from(["default-evaluator", "default-evaluator", "explicit-evaluator"]), st.integers(0, 5))
+        return st.builds(lambda trs, order: {"trackers": trs, "order": order}, st.lists(tr, min_size=2, max_size=5), st.lists(st.integers(0, 4), min_size=2, max_size=10))
+
+    def run(self, case, rec):
+        from geneticengine.evaluation.sequential import SequentialEvaluator
+        from geneticengine.evaluation.tracker import MultiObjectiveProgressTracker, SingleObjectiveProgressTracker
+        from geneticengine.problems import MultiObjectiveProblem, SingleObjectiveProblem
+        from geneticengine.solutions.individual import Individual
+
+        rep = TableRep()
+        made = []
+        for k, (kind, how, n) in enumerate(case["trackers"]):
+            calls = []
+            if kind == "single":
+                problem = SingleObjectiveProblem(lambda p, calls=calls: (calls.append(p[0]), float(p[1]))[1])
+                cls = SingleObjectiveProgressTracker
+            else:
+                problem = MultiObjectiveProblem([False, True], lambda p, calls=calls: (calls.append(p[0]), [float(p[1]), 1.0])[1])
+                cls = MultiObjectiveProgressTracker
+            tracker = cls(problem) if how == "default-evaluator" else cls(problem, SequentialEvaluator())
+            made.append((tracker, calls, kind, how, n, problem))
+            if tracker.get_number_evaluations() != 0:
+                rec.fail(
+                    "C13/tracker-counter/new-tracker-does-not-start-at-zero",
+                    f"tracker #{k} ({kind}, {how}) reports {tracker.get_number_evaluations()} evaluations before anything was evaluated through it; trackers {case['trackers']}",
+                )
+                return
+        rec.sample(case, limit=2)
+        serial = 0
+        for which in case["order"]:
+            tracker, calls, kind, how, n, problem = made[which % len(made)]
+            inds = [Individual((serial + j, j), rep) for j in range(n)]
+            serial += n
+            tracker.evaluate(inds)
+            for k, (t2, c2, kind2, how2, _, _) in enumerate(made):
+                if t2.get_number_evaluations() != len(c2):
+                    rec.fail(
+                        "C13/tracker-counter/differs-from-invocations",
+                        f"tracker #{k} ({kind2}, {how2}) reports {t2.get_number_evaluations()} evaluations but its fitness function was invoked {len(c2)} times (after evaluating {n} individuals through tracker #{which % len(made)}); trackers {case['trackers']}, order {case['order']}",
+                    )
+                    return
+        if sum(1 for _, _, _, how, n, _ in made if how == "default-evaluator" and n > 0) >= 2:
+            rec.nontrivial(case)
+
+
+FACETS = [Sequential(), Parallel(), GPRuns(), ShortLivedProblems(), ParallelOnRepresentations(), TrackerCounters()]
